@@ -9,7 +9,7 @@ let parse_reply (s : string) : reply =
                          rs_mc = n_of_int mc; rs_data = repeat (n_of_int fill) ln });
       r_frames = n_of_int fr }
   | _ -> failwith "bad reply"
-(* ops grammar: P R E S(ops) F(ops) I(ops) D<reply>; *)
+(* ops grammar: P R E f i S(ops) F(ops) I(ops) D<reply>;   (f / i: discovery with a NULL callback) *)
 let parse_ops (s : string) : op list =
   let n = String.length s in
   let pos = ref 0 in
@@ -19,11 +19,12 @@ let parse_ops (s : string) : op list =
       incr pos;
       let o = match c with
         | 'P' -> Pause | 'R' -> Resume | 'E' -> DeliverDisc
+        | 'f' -> Disc (true, true, []) | 'i' -> Disc (false, true, [])
         | 'S' | 'F' | 'I' ->
           incr pos; (* '(' *)
           let cb = ops () in
           incr pos; (* ')' *)
-          (match c with 'S' -> Submit cb | 'F' -> Disc (true, cb) | _ -> Disc (false, cb))
+          (match c with 'S' -> Submit cb | 'F' -> Disc (true, false, cb) | _ -> Disc (false, false, cb))
         | 'D' ->
           let e = String.index_from s !pos ';' in
           let r = parse_reply (String.sub s !pos (e - !pos)) in
@@ -74,7 +75,7 @@ let int_s (s : st) =
 let count_ops (l : op list) =
   let rec go d l = List.fold_left (fun (n, re, dl) o ->
       match o with
-      | Submit cb | Disc (_, cb) -> let (n', re', dl') = go (d + 1) cb in (n + 1 + n', re || re' || (d > 0), dl || dl')
+      | Submit cb | Disc (_, _, cb) -> let (n', re', dl') = go (d + 1) cb in (n + 1 + n', re || re' || (d > 0), dl || dl')
       | Deliver _ | DeliverDisc -> (n + 1, re, dl || d > 0)
       | _ -> (n + 1, re || (d > 0), dl)) (0, false, false) l in
   go 0 l
